@@ -127,25 +127,49 @@ static size_t c_adaptive(int in, uint8_t *o, size_t cap) {
     memcpy(o + w + 8, back, 64);
     return w + 72;
 }
+/* Packed arrays and bitstreams "on disjoint storage": each thread owns exactly
+ * the slots of its own array, and the arrays of all threads lie back to back
+ * in one slab (disjoint, not distant).  200 12-bit elements are exactly 75
+ * 32-bit slots; the bitstream is filled up to exactly 100 64-bit words. */
+#define MAXTHREADS 64
+#define PK_REGION 300
+#define BS_REGION 800
+static uint8_t g_pk_slab[MAXTHREADS * PK_REGION] __attribute__((aligned(64)));
+static uint8_t g_bs_slab[MAXTHREADS * BS_REGION] __attribute__((aligned(64)));
+static __thread int tl_tid;
 static size_t c_packed(int in, uint8_t *o, size_t cap) {
     (void)cap;
-    memset(o, 0, 512);
-    for (int i = 0; i < 200; i++) thr_12Set(o, (uint32_t)i, (uint16_t)(IN[in][i] & 0xFFF));
+    uint8_t *mine = g_pk_slab + (size_t)tl_tid * PK_REGION;
+    memset(mine, 0, PK_REGION);
+    for (int i = 0; i < 200; i++) thr_12Set(mine, (uint32_t)i, (uint16_t)(IN[in][i] & 0xFFF));
     uint16_t acc = 0;
-    for (int i = 0; i < 200; i++) acc ^= thr_12Get(o, (uint32_t)i);
-    memcpy(o + 300, &acc, 2);
-    return 302;
+    for (int i = 0; i < 200; i++) acc ^= thr_12Get(mine, (uint32_t)i);
+    memcpy(o, mine, PK_REGION);
+    memcpy(o + PK_REGION, &acc, 2);
+    return PK_REGION + 2;
 }
 static size_t c_bitstream(int in, uint8_t *o, size_t cap) {
     (void)cap;
-    memset(o, 0, 1024);
-    size_t off = 0;
-    for (int i = 0; i < 100; i++) {
-        size_t w = 1 + (size_t)(IN[in][i] % 63);
-        varintBitstreamSet((vbits *)o, off, w, IN[in][i] & ((1ULL << w) - 1));
+    uint8_t *mine = g_bs_slab + (size_t)tl_tid * BS_REGION;
+    memset(mine, 0, BS_REGION);
+    size_t off = 0, total = BS_REGION * 8;
+    for (int i = 0; off < total; i++) {
+        size_t w = 1 + (size_t)(IN[in][i % N] % 63);
+        if (off + w > total || total - (off + w) < 1) {
+            w = total - off; /* the last field ends exactly on the region's last bit */
+        }
+        if (w > 64) {
+            w = 64;
+        }
+        uint64_t v = IN[in][i % N] & (w >= 64 ? ~0ULL : ((1ULL << w) - 1));
+        varintBitstreamSet((vbits *)mine, off, w, v);
         off += w;
     }
-    return (off + 7) / 8;
+    uint64_t acc = 0;
+    for (size_t b = 0; b + 64 <= total; b += 64) acc ^= varintBitstreamGet((const vbits *)mine, b, 64);
+    memcpy(o, mine, BS_REGION);
+    memcpy(o + BS_REGION, &acc, 8);
+    return BS_REGION + 8;
 }
 static const struct { const char *name; callfn fn; } CALLS[] = {
     {"tagged", c_tagged}, {"external", c_ext}, {"chained", c_chained}, {"delta", c_delta}, {"for", c_for},
@@ -189,6 +213,7 @@ static void spin_barrier(long generation) {
 
 static void *worker(void *arg) {
     int t = (int)(intptr_t)arg;
+    tl_tid = t;
     char path[512];
     snprintf(path, sizeof(path), "%s-t%02d.ndjson", prefix, t);
     tr_tls = fopen(path, "w");
